@@ -212,10 +212,13 @@ def extracted_sets(src, cfg, env):
     def norm(f, m):
         return norm_msg(f, (m,) if (isinstance(m, str) or m is None) else m)
 
-    a = {(f, norm(f, m)) for _, f, m in ext.extract_from_ast(env.parse(src), ext.GETTEXT_FUNCTIONS)}
+    def real(f):
+        return "gettext" if f == "_" else f  # `_` is the documented alias of gettext
+
+    a = {(real(f), norm(f, m)) for _, f, m in ext.extract_from_ast(env.parse(src), ext.GETTEXT_FUNCTIONS)}
     opts = {"trimmed": "true" if policy else "false", "newstyle_gettext": "true" if newstyle else "false",
             "silent": "false"}
-    b = {(f, norm(f, m)) for _, f, m, _ in ext.babel_extract(io.BytesIO(src.encode("utf-8")), ext.GETTEXT_FUNCTIONS,
+    b = {(real(f), norm(f, m)) for _, f, m, _ in ext.babel_extract(io.BytesIO(src.encode("utf-8")), ext.GETTEXT_FUNCTIONS,
                                                          [], opts)}
     return a, b
 
